@@ -412,6 +412,7 @@ pub fn ev_bits_eq(a: &Ev, b: &Ev) -> bool {
         (Ev::SU(None), Ev::SU(None)) | (Ev::SG(None), Ev::SG(None)) => true,
         (Ev::SU(Some(x)), Ev::SU(Some(y))) | (Ev::SG(Some(x)), Ev::SG(Some(y))) => bits_eq(x, y),
         (Ev::Valid(x, p), Ev::Valid(y, q)) | (Ev::Sat(x, p), Ev::Sat(y, q)) => p == q && bits_eq(x, y),
+        (Ev::OutOfBounds(x), Ev::OutOfBounds(y)) => bits_eq(x, y),
         _ => false,
     }
 }
